@@ -24,7 +24,12 @@ Inductive row := Row (pre : option value) (v : value) (obs : list (Z * Z)) (tobs
     [loaded]: whether LoadModuleFromString returned a module. *)
 Inductive case :=
 | CType (b : base) (is_list : bool) (chain : list tlevel) (ast : option (list slevel))
-        (rxt : list (text * text * bool)) (loaded : bool) (rows : list row).
+        (rxt : list (text * text * bool)) (loaded : bool) (rows : list row)
+(** a leaf whose type is a union of integer types, each member with an optional range statement
+    (text, and the syntax it was printed from); rows: number written (onto an absent leaf) and
+    per write path (outcome, store) *)
+| CUnion (ms : list (ikind * option text * option (list alt))) (loaded : bool)
+         (rows : list (Z * list (Z * Z))).
 
 Definition rx_lookup (tbl : list (text * text * bool)) (p s : text) : option bool :=
   match find (fun e => text_eqb (fst (fst e)) p && text_eqb (snd (fst e)) s) tbl with
@@ -56,6 +61,8 @@ Definition rx_complete (tbl : list (text * text * bool)) (chain : list tlevel) (
       2  patterns on more than one level of the chain: the derived type's replace the base's (mixin)
       4  a min/max keyword as single value or on the wrong side of "..": that alternative matches
          nothing (completeness only: the value it denotes is rejected)
+      3  a union member's own range is never checked (node/value.go NewValue converts with
+         val.ConvOneOf and CheckFieldPreConstraints has no case for FmtUnion)
       6  Selection.Set with a hand-built val.Enum / val.Bits: membership is only enforced by NewValue,
          which Set does not run *)
 Definition has_pats (l : plevel) : bool := match pl_pats l with [] => false | _ => true end.
@@ -124,6 +131,30 @@ Definition classify (c : case) : verdict :=
         Bool.eqb loaded (match ast with Some _ => true | None => false end) &&
         (if loaded then forallb spec_row rows else true) in
       classify_gen corr spec (match parsed with Some pc => known_region_b b pc | None => None end)
+  | CUnion ms loaded rows =>
+      let mtext := map (fun m => (fst (fst m), snd (fst m))) ms in
+      let mast := map (fun m => (fst (fst m), snd m)) ms in
+      let ast_agrees :=
+        forallb (fun m => match snd (fst m), snd m with
+                          | None, None => true
+                          | Some t, Some a => match parse_range t with
+                                              | Some r => list_eqv alt_eqv (map den_entry r) a
+                                              | None => false
+                                              end
+                          | _, _ => false
+                          end) ms in
+      let corr :=
+        Bool.eqb loaded (union_loads mtext) && ast_agrees &&
+        forallb (fun r => let o := union_accept mtext (fst r) in
+                          forallb (obs_is (code_of o) (match o with Accepted => 1 | _ => 0 end)) (snd r)) rows in
+      let spec :=
+        loaded &&
+        forallb (fun r => if in_unionb mast (fst r) then forallb (obs_is 0 1) (snd r)
+                          else forallb (obs_is 1 0) (snd r)) rows in
+      (* finding 3: a union member that carries a restriction *)
+      classify_gen corr spec
+        (if existsb (fun m => match snd (fst m) with Some _ => true | None => false end) ms
+         then Some 3%nat else None)
   end.
 
 (** outside the listed regions the chain has at most one pattern and no misplaced keyword: these
@@ -275,4 +306,14 @@ Lemma kf6_refuted :
 Proof.
   split; [vm_compute; reflexivity|]. split; [vm_compute; reflexivity|]. split; [vm_compute; reflexivity|].
   intros H. apply in_effective_typeb_iff in H. vm_compute in H. discriminate.
+Qed.
+
+(** finding 3: union { type int8 { range "1..10"; } type int16 { range "100..200"; } } stores 50 *)
+Definition kf3_members : list (ikind * option text) :=
+  [(I8, Some [x31; x2e; x2e; x31; x30]); (I16, Some [x31; x30; x30; x2e; x2e; x32; x30; x30])].
+Lemma kf3_refuted :
+  union_accept kf3_members 50 = Accepted /\
+  ~ in_union [(I8, Some [mkAlt (BdNum 1 0) (BdNum 10 0)]); (I16, Some [mkAlt (BdNum 100 0) (BdNum 200 0)])] 50.
+Proof.
+  split; [vm_compute; reflexivity|]. intros H. apply in_unionb_iff in H. vm_compute in H. discriminate.
 Qed.
